@@ -33,12 +33,21 @@ CHECKS = {
  "C14": ("pbt", "seeded proptest round-trip (parse . generate = id) + accept/reject reference model of the request line",
          "Exploration: 50k (quick) / 2M (thorough) generated well-formed requests are serialised by the library and parsed back, compared field by field; 40k / 2M raw messages (request-line near misses, arbitrary UTF-8 heads, junk Content-Length) are judged by the harness's accept/reject model. Failures shrink to a minimal request. Sampling, not proof: absence of a counterexample in the grammar explored.",
          "Trusts Request::generate as the serialiser under test and the harness's request-line model; classes the statement leaves open (lower case, extra spaces, empty target pinned by the unit tests, later non-UTF-8 header lines) assert totality only.", "DESIGN.md §4 C14"),
+ "C15": ("pbt", "seeded proptest round-trip Response::parse(serialise(v)) = v through both serialisers, single-field corruptions must be rejected",
+         "Exploration: 40k (quick) / 2M (thorough) response values (60 statuses, 4 versions, 0-20 headers, 1 or 2-6 parts with arbitrary binary bodies) serialised by Response::generate_response and by the instance method Response::generate, parsed back and compared field by field; 24k / 1M single-field corruptions (status, reason, version, delimiters, range fields, deleted part header) must yield Err. One listed known finding (instance serialiser drops Content-Type) is counted and excluded.",
+         "Bodies never contain the boundary token; header names are tokens other than the framing names; part content types without surrounding blanks.", "DESIGN.md §4 C15"),
  "C16": ("pbt", "seeded proptest round-trip parse(generate(parts, b), b) = parts, browser-shaped differential, structural negatives, echo endpoint",
          "Exploration: 24k (quick) / 1M (thorough) part lists x RFC 2046 boundaries through the library serialiser, 12k / 500k through the browser serialisation (extract_boundary, '--b' delimiters, '--b--'), 12k / 500k structural negatives (opening/closing delimiter removed, truncation after headers / inside a body, part without headers) and 6k / 200k text forms through the server's echo endpoint.",
          "Header values without leading/trailing blanks; the boundary parameter does not occur in the serialised parts (the statement's precondition).", "DESIGN.md §4 C16"),
+ "C17": ("pbt", "seeded proptest round-trip decode(encode(m)) = m on four routes (query, form body, GET and POST echo endpoints of the server)",
+         "Exploration: 30k (quick) / 1.5M (thorough) maps of up to 20 fields over printable Unicode with reserved characters, '%'+hex, multi-byte and astral characters over-represented; each map goes through URL::parse_query, FormUrlEncoded::parse and both echo endpoints via Server::process. The listed dependency defect (pct-then-late-code) is attributed precisely: fields it does not touch must still come back exactly.",
+         "The library's own encoder is part of the round trip; Unicode whitespace other than U+0020 is outside 'printable text'.", "DESIGN.md §4 C17"),
  "C18": ("pbt", "exhaustive enumeration of 0-3-byte groups + seeded proptest round-trip against a reference RFC 4648 encoder",
          "Exploration with an exhaustive core: quick enumerates every input of length 0-2 and a 48^3 boundary cube of 3-byte groups, thorough every input of length 0-3 (16,843,009, flagged exhaustive in evidence); random strings cover every length residue; decoder negatives are sampled. The encoder works group by group, so the exhaustive core decides the encoder for all inputs up to concatenation; the rest is sampled.",
          "Trusts the harness's own 20-line RFC 4648 encoder (self-tested against the RFC vectors at start-up).", "DESIGN.md §4 C18"),
+ "C19": ("pbt", "seeded proptest round-trip parse_json(to_json_string(x)) = x for a struct built from the library's traits, differential against serde_json (arbitrary precision)",
+         "Exploration: 16k (quick) / 600k (thorough) values of a recursive struct implementing New/ToJSON/FromJSON in the README's style with every field kind present/absent (String, bool, i128, f64, nested object, array of objects, 15 typed arrays), nesting depth 0-4; the text must parse back to an equal value and must be read by serde_json as the same tree (integers exactly, floats by parsing the literal). One listed known finding (non-ASCII strings) is counted and excluded; 12% of the values carry non-ASCII text.",
+         "The harness struct follows the documented pattern (an integer token is accepted for an f64 field); serde_json is the independent parser.", "DESIGN.md §4 C19"),
 }
 
 NOT_YET = "check not built yet in this commit (see DESIGN.md §9 implementation order); will be claimed when its generator and oracle are in place"
